@@ -117,16 +117,23 @@ PROPS = {
         "title": "Body size limits",
         "design_ref": "DESIGN.md section 3 (C09)",
         "technique": "Verus contracts on the real body readers (copy_async, read_http_body_to_vec/_to_file, read_http_unsized_body_to_vec/_to_file, "
-                     "RequestBody::len/is_pending) over the reader event history, with assumed contracts for Take / File / TempFile / FixedBuf",
+                     "RequestBody::len/is_pending) over the reader event history, with assumed contracts for Take / File / TempFile / FixedBuf; "
+                     "HttpConn::read_body_to_vec/_to_file and handle_http_conn_once with ghost state (declared body, handler consulted, handler limit) "
+                     "and obligations at the body reads and at the final handler run",
         "level_text": "Deductive proof for every declared length, every limit in u64 (including 0 and u64::MAX) and every read partition, unbounded: "
                       "a known-length read consumes at most len bytes, returns exactly the next len bytes (Vec) / reports len (file) or fails "
                       "with Truncated; an unknown-length read takes at most max_len+1 bytes from the connection and writes exactly those to the "
                       "temp file, is accepted iff the stream ended within max_len bytes and otherwise fails with BodyTooLong; copy_async copies "
-                      "every byte once, in order, and returns the count; no arithmetic overflows (max_len+1 at u64::MAX was a genuine defect, fixed).",
+                      "every byte once, in order, and returns the count; no arithmetic overflows (max_len+1 at u64::MAX was a genuine defect, fixed). "
+                      "handle_http_conn_once, for every S, handler and request: a body is read to memory without consulting the handler iff it is "
+                      "declared with L <= S (and then arrives as a Vec of exactly L bytes); the handler is consulted about a pending body only when "
+                      "L > S or undeclared; a body is fetched to a file only after the handler asked, with the handler's own limit M, and the "
+                      "final handler run then sees a file body of n <= M bytes (n == L when declared) -- L > M never reaches a second run.",
         "level_note": "Assumed contracts: futures-lite Take (budget, pass-through, prophecy relation take_fate), async_fs::File as a writer, "
                       "temp_file::TempFile, fixed_buffer::FixedBuf (from its source), io read/write_all; the temp file's on-disk content is the "
-                      "writer's ghost `cur()`; async removed (D1/D2). Not covered: the small-body shortcut and 413 mapping in handle_http_conn_once "
-                      "(generic handler closure), Request::recv_body, 'never holds more than S bytes in memory'.",
+                      "writer's ghost `cur()`; async removed (D1/D2); in handle_http_conn_once the handler future is replaced by its output (D4) and "
+                      "the handler is an arbitrary FnOnce(Request) -> Response. Not covered: Request::recv_body; 'never holds more than S bytes in "
+                      "memory' only as far as the in-memory body is a Vec of the declared length <= S (the fixed head buffer is extra).",
         "verus": ["body", "conn"],
         "verus_thorough": ["copy"],
         "kani": [],
@@ -139,9 +146,8 @@ PROPS = {
             "usize is 64 bits (Verus default) for `len as u64`",
         ],
         "not_covered": [
-            "handle_http_conn_once's `*len <= small_body_len as u64` shortcut and the second handler run (generic async handler closure)",
             "Request::recv_body (needs url::Url / HashMap stand-ins); BodyTooLong -> 413 is covered by C20's mapping harness",
-            "memory residency ('never holds more than S body bytes in memory')",
+            "memory residency beyond 'an in-memory body has its declared length <= S'",
         ],
     },
     "C05": {
@@ -176,19 +182,26 @@ PROPS = {
         "title": "A failed response write never corrupts the connection",
         "design_ref": "DESIGN.md section 4 (C06/C08)",
         "technique": "Verus: write_response contract + lemmas thm_failed_write_is_final / thm_failed_write_nothing_sent over it (conn unit); "
+                     "handle_http_conn_once postcondition once_post and the error branch of handle_http_conn (ghost connection snapshots, obligations at the "
+                     "error write and at the return after shutdown_write); From<HttpError> for Response; "
                      "writer-error clauses of copy_async / copy_chunked_async (prefix of the correct output)",
         "level_text": "Deductive proof for every failure point the writer contract allows (failure after any number of bytes): the bytes on the wire "
                       "are a prefix of wire + ser(resp, close); if at least one byte was sent the write side is shut down and no later operation "
                       "adds a byte (no second status line); if none was sent the response is still owed and the wire is unchanged; body copy "
-                      "loops leave a prefix of the correct body encoding on writer failure.",
+                      "loops leave a prefix of the correct body encoding on writer failure. "
+                      "Per-connection loop: handle_http_conn_once, started on a ready connection, returns an error other than Disconnected only with "
+                      "the write side shut down, nothing owed, or the response still owed and at most one complete 100-continue on the wire; the "
+                      "error branch of handle_http_conn then writes nothing or a prefix of the one serialisation of a Normal 400/413/431/500/505 "
+                      "response and always leaves the write side shut down.",
         "level_note": "'the one correct serialisation' is the uninterpreted ser(resp, close) of the assumed write_http_response contract (its head is "
-                      "built with format!, outside Verus); body-file faults (missing / short file) are not covered; handle_http_conn's error branch is not under contract.",
+                      "built with format!, outside Verus); body-file faults (missing / short file) are not covered deductively. In handle_http_conn the "
+                      "handler future is replaced by its output (rule D4), println! is dropped (rule R8) and loop termination is not claimed.",
         "verus": ["conn", "copy", "chunked"],
         "verus_thorough": [],
         "kani": ["c05"],
         "witness": ["c08", "cconn"],
         "assumptions": ["as C05", "assumed write_all contract: on Err a prefix of the slice was appended"],
-        "not_covered": ["body source faults (file missing / unreadable / shorter than declared)", "handle_http_conn's `write_response(&e.into())` + shutdown_write branch"],
+        "not_covered": ["body source faults (file missing / unreadable / shorter than declared) -- bounded stand-ins c08 / cconn only"],
     },
     "C01": {
         "title": "Request reading is total (framing and fragmentation part)",
